@@ -262,3 +262,19 @@ PROPS["C06"] = dict(
     min_labels=dict(quick=dict(many_keys=1000, table_grew=4000, insert_after_delete=20000, delete_during_foreach=5000, constant_key=10000, hash_perllike=8000, hash_default=15000)),
     assumptions=["member names without NUL (API limit)", "KEY_IS_NEW is only passed when the model says the key is new, CONSTANT_KEY only with storage that outlives the object (the documented preconditions)"],
 )
+
+PROPS["C12"] = dict(
+    harness="C12_pointer.cpp", level="exploration",
+    technique="property testing against an RFC 6901 reference evaluator on a plain value model: per generated tree every node path is enumerated, plus mutated/dangling pointers, set histories with ownership tracking, printf-style variants; identity of the returned node is checked by an independent accessor walk",
+    level_text="trees whose keys come from an adversarial pool ('', '/', '~', '~0', '~1', '~01', 'a/b', digits, '00', '-', '%s', long numbers ...) with null "
+               "members and elements: the escaped pointer to every node must resolve to exactly that node (null included); mutated pointers (dropped or "
+               "doubled '/', raw '~', '~2', leading zeros, '+1', '-', empty token, index = length, huge index, path through a scalar, no leading '/') must "
+               "succeed exactly when the reference does and otherwise fail with ENOENT/EINVAL leaving the tree unchanged; sets are compared with a "
+               "reference set (tree equality after every set, get-after-set identity, ownership on success and failure); getf/setf must agree with get/set",
+    level_note="for an array index beyond the length json_pointer.h documents storage via json_object_array_put_idx (null padding); that documented behaviour is accepted",
+    rule="tree + all its node paths + mutated pointers + set history; non-trivial = some pointer has >= 2 tokens or needs unescaping, or a set was performed; distinct by tree hash",
+    quick=[dict(mode="gen", cases=40000, workers=8)],
+    thorough=[dict(mode="gen", cases=3000000, workers=16), dict(mode="gen", fuzz=True, secs=300, jobs=8, max_len=1024)],
+    min_labels=dict(quick=dict(set=50000, mutated_pointer_fails=100000, mutated_pointer_resolves=6000)),
+    assumptions=["root is not JSON null (json_pointer_get refuses a NULL object)", "set indices in (length+3, SIZE_MAX/16) are not generated (would need real memory)"],
+)
